@@ -54,6 +54,10 @@ BATTERY = [
     ({"properties": {"p": {"vf-kw": 3, "maxLength": 1}}, "items": {"vf-kw": 1, "type": "string"}, "vf-kw": 2}, {"p": "toolong"}),
     ({"vf-kw": 7, "minLength": 3, "vf-other": 1}, "ab"), ({"dependencies": {"a": ["b"]}, "patternProperties": {"^a": {"type": "null"}}}, {"a": 1}),
     ({"enum": [[0]]}, [False]), ({"uniqueItems": True}, [1, True]), ({"propertyNames": {"maxLength": 1}}, {"ab": 1}),
+    # reference objects with failing siblings (ignored, whatever the class's keyword table says about `$ref`)
+    ({"definitions": {"a": {"minimum": 10}}, "$ref": "#/definitions/a", "type": "string", "maxLength": 0, "enum": []}, 5),
+    ({"definitions": {"a": {}}, "properties": {"p": {"$ref": "#/definitions/a", "type": "null", "vf-kw": 9}}}, {"p": 1}),
+    ({"items": {"$ref": "#", "maxItems": 0, "type": "string"}, "type": ["array", "integer"]}, [[1], 2]),
 ]
 
 
@@ -318,9 +322,10 @@ def run_history(rec, ops, base_draft):
                     name = None
                     if kind == "extend_override":
                         # any keyword may be overridden (only that keyword's behaviour may change)
-                        name = rng.choice(["vf-kw", "minLength", "type", "vf-other", "format"] +
+                        name = rng.choice(["vf-kw", "minLength", "type", "vf-other", "format", "$ref", "$ref"] +
                                           sorted(k for k in C["obj"].VALIDATORS if k != "$ref"))
-                        kw["validators"] = {name: kw_fn("e%d" % n)}
+                        # (a keyword may also be switched off by overriding it with None: the dispatch skips such entries)
+                        kw["validators"] = {name: kw_fn("e%d" % n) if rng.random() < 0.8 else None}
                     same_tc = False
                     if kind == "extend_typechecker":
                         if rng.random() < 0.35:
@@ -356,6 +361,22 @@ def run_history(rec, ops, base_draft):
                                     steps = [repr(name)] + (["'then'", "'else'"] if name == "if" else [])
                                     fa = [e for e in a if e[0] != repr(name) and not any(st_ in e[3] for st_ in steps)]
                                     fb = [e for e in b if e[0] != repr(name) and not any(st_ in e[3] for st_ in steps)]
+                                    if name == "$ref":
+                                        # (this version leaves no `$ref` step in schema paths, so what was reached through
+                                        #  a reference cannot be told apart: overriding `$ref` may only REMOVE errors -
+                                        #  the keywords next to a reference stay ignored)
+                                        rest = list(fa)
+                                        extra = []
+                                        for e in fb:
+                                            if e in rest:
+                                                rest.remove(e)
+                                            else:
+                                                extra.append(e)
+                                        if extra:
+                                            rec.violation("override-changed-other-keywords", dict(case, step=n, keyword=name, schema=s, instance=i),
+                                                          "overriding '$ref' made other keywords report errors the parent never reports: %r" % (extra[:2],))
+                                            return
+                                        continue
                                     if fa != fb:
                                         rec.violation("override-changed-other-keywords", dict(case, step=n, keyword=name, schema=s, instance=i),
                                                       "overriding %r changed errors of other keywords: %r vs %r" % (name, fa[:2], fb[:2]))
